@@ -351,12 +351,16 @@ int main(int argc, char **argv) {
     for (int i = 0; i < ncompounds; i++) parsec_taskpool_free(compounds[i]);
     for (int i = 0; i < ninner; i++) parsec_taskpool_free(inner[i]);
     dump();
-    hb_stop = 1; pthread_join(hb, NULL);
+    /* --hblate 1 (C18): keep the heartbeat (phase 3, ticking for a bounded time) through parsec_fini / MPI_Finalize: on a loaded
+     * machine the finalisation of a finished run can take longer than the driver's stall window */
+    int hb_late = atoi(arg(argc, argv, "--hblate", "0"));
+    if (!hb_late) { hb_stop = 1; pthread_join(hb, NULL); }
     for (int k = 0; k < vf_nk; k++) if (dts[k]) parsec_data_destroy(dts[k]);
     parsec_data_collection_destroy(&D);
     parsec_type_free(&vf_tile_dtt);
     parsec_fini(&ctx);
     MPI_Finalize();
+    if (hb_late) { hb_stop = 1; pthread_join(hb, NULL); }
     printf("VF {\"type\":\"summary\",\"rank\":%d,\"records\":%llu}\n", vf_rank, (unsigned long long)nrecs);
     return 0;
 }
